@@ -71,6 +71,7 @@ type ATCol struct {
 type ATSchema struct {
 	Auto    bool // the (single, integer) key column is AUTO_INCREMENT
 	Collide bool
+	DBName  string // schema the table was created in (set by Create)
 	Table   string
 	Cols    []ATCol
 	PK      []int
@@ -94,6 +95,7 @@ func (s *ATSchema) isPK(c int) bool {
 }
 
 func (s *ATSchema) Create(e *memdb.Engine) {
+	s.DBName = e.Name()
 	def := memdb.TableDef{Name: s.Table}
 	for _, c := range s.Cols {
 		col := memdb.Column{Name: c.Name, Nullable: c.Nullable}
@@ -168,6 +170,48 @@ type ATStmt struct {
 	Classes []string
 	// ForceFail: the database is made to fail the business statement (injected error)
 	ForceFail bool
+	// Spell: how the statement writes the table name (0 as created, 1 UPPER, 2 `quoted`, 3 db.table, 4 `db`.`table`)
+	Spell int
+}
+
+// tableText is the table name as the statement spells it
+func (s *ATStmt) tableText(sc *ATSchema) string {
+	db := sc.DBName
+	if db == "" {
+		db = "verifdb"
+	}
+	switch s.Spell {
+	case 1:
+		return strings.ToUpper(sc.Table)
+	case 2:
+		return "`" + sc.Table + "`"
+	case 3:
+		return db + "." + sc.Table
+	case 4:
+		return "`" + db + "`.`" + sc.Table + "`"
+	}
+	return sc.Table
+}
+
+// spellStatements gives every statement of a case a spelling of the table name, derived from the case id
+// and the statement's position (not from the random stream): about half as created
+func spellStatements(c *ATCase) {
+	h := 0
+	for _, ch := range c.ID {
+		h = h*31 + int(ch)
+	}
+	k := 0
+	for li := range c.Locals {
+		for _, st := range c.Locals[li].Stmts {
+			k++
+			if v := (h + 7*k) % 10; v >= 5 {
+				st.Spell = v - 5 + 1
+				if st.Spell > 4 {
+					st.Spell = 0
+				}
+			}
+		}
+	}
 }
 
 // HasLimit: the statement carries ORDER BY … LIMIT
@@ -287,7 +331,7 @@ func (s *ATStmt) Render(sc *ATSchema) (string, []interface{}, string) {
 	o := &sqlOut{}
 	switch s.Kind {
 	case 'U':
-		o.sb.WriteString("UPDATE " + sc.Table + " SET ")
+		o.sb.WriteString("UPDATE " + s.tableText(sc) + " SET ")
 		if s.HasLimit() {
 			fmt.Fprintf(&o.tok, "W%d:", len(s.Sets))
 		} else {
@@ -311,7 +355,7 @@ func (s *ATStmt) Render(sc *ATSchema) (string, []interface{}, string) {
 		}
 		o.cond(sc, s.Where)
 	case 'D':
-		o.sb.WriteString("DELETE FROM " + sc.Table)
+		o.sb.WriteString("DELETE FROM " + s.tableText(sc))
 		if s.HasLimit() {
 			o.tok.WriteString("K")
 		} else {
@@ -329,7 +373,7 @@ func (s *ATStmt) Render(sc *ATSchema) (string, []interface{}, string) {
 			}
 			names = append(names, c.Name)
 		}
-		o.sb.WriteString("INSERT INTO " + sc.Table + " (" + strings.Join(names, ", ") + ") VALUES ")
+		o.sb.WriteString("INSERT INTO " + s.tableText(sc) + " (" + strings.Join(names, ", ") + ") VALUES ")
 		fmt.Fprintf(&o.tok, "%c%d:%d:", s.Kind, len(s.Rows), len(sc.Cols))
 		for i, row := range s.Rows {
 			if i > 0 {
